@@ -5,6 +5,7 @@ mod chunker;
 mod common;
 mod ingest;
 mod members;
+mod poolstress;
 mod sim;
 mod syncneeds;
 
@@ -14,7 +15,7 @@ fn main() {
         eprintln!("usage: vh <subcommand> [args]");
         std::process::exit(2);
     }
-    let rt = tokio::runtime::Builder::new_multi_thread().worker_threads(2).enable_all().build().unwrap();
+    let rt = tokio::runtime::Builder::new_multi_thread().worker_threads(std::env::var("VH_THREADS").ok().and_then(|s| s.parse().ok()).unwrap_or(2)).enable_all().build().unwrap();
     let res: eyre::Result<()> = rt.block_on(async {
         match args[1].as_str() {
             "replay-bookkeeping" => bk::run(&args[2]).await,
@@ -29,6 +30,7 @@ fn main() {
                 let p = |i: usize| args[i].parse::<u64>().unwrap();
                 ingest::run_walk(p(2), p(3) as usize, p(4) as usize, p(5), p(6) as usize, &args[7]).await
             }
+            "pool-stress" => poolstress::run(args[2].parse().unwrap(), args[3].parse().unwrap(), &args[4]).await,
             "sim-replay" => sim::run_replay(&args[2], &args[3]).await,
             "replay-members" => members::run(&args[2]),
             "replay-chunker" => chunker::run_chunker(&args[2]),
